@@ -479,6 +479,21 @@ func (txmp *TxMempool) addNewTransaction(wtx *WrappedTx, checkTxRes *abci.Respon
 		return
 	}
 
+	// The cache is bounded independently of the mempool (and can be reset by
+	// Flush), so a transaction that is still in the mempool may pass the cache
+	// check again. Never insert it twice: only record the new peer.
+	if elt, ok := txmp.txByKey[wtx.tx.Key()]; ok {
+		w := elt.Value.(*WrappedTx)
+		for id := range wtx.peers {
+			w.SetPeer(id)
+		}
+		txmp.logger.Debug(
+			"transaction already in the mempool, not adding it again",
+			"tx", fmt.Sprintf("%X", wtx.tx.Hash()),
+		)
+		return
+	}
+
 	priority := checkTxRes.Priority
 	sender := checkTxRes.Sender
 
